@@ -8,8 +8,7 @@
                                                     division have the same observable: the samples)
     lcapy/zexpr.py  as_ab / dltifilter.py        -> `respRun` (difference-equation recursion with initial
                                                     conditions), `iniNum` (zdomain_initial_response)
-    lcapy/sequence.py  lfilter / convolve        -> `lfilterPy`, `convolvePy` (Python list semantics,
-                                                    negative indices wrap)
+    lcapy/sequence.py  lfilter / convolve        -> `lfilterPy`, `convolvePy`
     lcapy/dft.py  termXq                         -> `dftImp`, `dftGeo`, `dftConst`, `dftRamp`
 
   Polynomials in w = z⁻¹ are coefficient lists, lowest power first.  A z-transform value is
@@ -125,10 +124,11 @@ inductive Base (K : Type) where
   | cos (cb sb cc sc : K)
   | sin (cb sb cc sc : K)
 
-/-- `invz ** delay` resp. `invz ** delay / (1 - invz)` — the code applies this to any integer delay -/
+/-- `invz ** delay` resp. `invz ** delay / (1 - invz)` for a delay ≥ 0; an impulse before n = 0
+    contributes nothing to the unilateral sum and a step starting before n = 0 is a step at 0 -/
 def ztBase : Base K → ZR K
-  | .imp d => if d ≥ 0 then ⟨0, pshift d.toNat [1], [1]⟩ else ⟨(-d).toNat, [1], [1]⟩
-  | .step d => if d ≥ 0 then ⟨0, pshift d.toNat [1], [1, -1]⟩ else ⟨(-d).toNat, [1], [1, -1]⟩
+  | .imp d => if d ≥ 0 then ⟨0, pshift d.toNat [1], [1]⟩ else ⟨0, [], [1]⟩
+  | .step d => if d ≥ 0 then ⟨0, pshift d.toNat [1], [1, -1]⟩ else ⟨0, [1], [1, -1]⟩
   | .one => ⟨0, [1], [1, -1]⟩
   | .cos cb sb cc sc => ⟨0, [cc, -(cb * cc + sb * sc)], [1, -(cb + cb), 1]⟩
   | .sin cb sb cc sc => ⟨0, [sc, sb * cc - cb * sc], [1, -(cb + cb), 1]⟩
@@ -178,60 +178,24 @@ def respRun (b a : List K) (x : Int → K) (ic : List K) : Nat → List K
   | 0 => ic
   | n + 1 => respStep b a x (respRun b a x ic n) (Int.ofNat n) :: respRun b a x ic n
 
-/-- numerator (in w, after multiplying num and denom by w^(Nl-1)) of `zdomain_initial_response`,
-    `left=True`: coefficient m is `Σ_{k>m} (-a_k ic[k-m-1] + [k < len b] b_k xic[k-m-1])`, k < len a -/
+/-- numerator (in w, after clearing negative powers) of `zdomain_initial_response`, `left=True`:
+    coefficient m is `Σ_{k>m} (b_k xic[k-m-1] - a_k ic[k-m-1])` -/
 def iniNum (b a ic xic : List K) : List K :=
-  (List.range (a.length - 1)).map fun m =>
-    dot ((b.take a.length).drop (m + 1)) xic - dot (a.drop (m + 1)) ic
+  (List.range (max a.length b.length - 1)).map fun m =>
+    dot (b.drop (m + 1)) xic - dot (a.drop (m + 1)) ic
 
-end
+/-! ### `Sequence.lfilter` / `Sequence.convolve` -/
 
-/-! ### `Sequence.lfilter` / `Sequence.convolve` with Python list semantics -/
-section
-variable {K : Type} [Add K] [Mul K] [Div K] [OfNat K 0]
+/-- `Sequence.lfilter(b, a)` on the value list x: the recursion started at rest (input and output
+    are zero before the first sample) -/
+def lfilterPy (b a x : List K) : List K :=
+  (List.range x.length).map fun n =>
+    (respRun b a (fun i => if 0 ≤ i then x.getD i.toNat 0 else 0) (List.replicate (a.length - 1) 0) (n + 1)).headD 0
 
-/-- Python `x[j]` for a list: negative indices count from the end; out of range raises
-    (`none`), which the code swallows with `try/except: pass` -/
-def pyIndex (x : List K) (j : Int) : Option K :=
-  if 0 ≤ j then x[j.toNat]? else if -j ≤ x.length then x[(x.length + j).toNat]? else none
-
-/-- `Σ_m b_m * x[n-m] / a0` with Python indexing -/
-def lfFir (b : List K) (a0 : K) (x : List K) (n : Nat) : K :=
-  (List.range b.length).foldl (fun acc m =>
-    match pyIndex x ((n : Int) - (m : Nat)) with
-    | some v => acc + b.getD m 0 * v / a0
-    | none => acc) 0
-
-/-- `yn += a1 * y[-m-2] / a0` for `m, a1 in enumerate(a[1:])`; `ys` holds y[n-1], y[n-2], … -/
-def lfIir (a : List K) (a0 : K) (prev : List K) (acc : K) : K :=
-  (List.range (a.length - 1)).foldl (fun acc m =>
-    match prev[m]? with
-    | some v => acc + a.getD (m + 1) 0 * v / a0
-    | none => acc) acc
-
-/-- newest first -/
-def lfRun (b a : List K) (x : List K) : Nat → List K
-  | 0 => []
-  | n + 1 =>
-    let prev := lfRun b a x n
-    lfIir a (a.headD 0) prev (lfFir b (a.headD 0) x n) :: prev
-
-def lfilterPy (b a x : List K) : List K := (lfRun b a x x.length).reverse
-
-end
-
-section
-variable {K : Type} [Add K] [Mul K] [Div K] [OfNat K 0] [OfNat K 1] [DecidableEq K]
-
-/-- `Sequence.extent`: span from the first to the last non-zero element -/
-def extent (x : List K) : Nat :=
-  (x.dropWhile (fun c => c = 0)).length - (x.reverse.takeWhile (fun c => c = 0)).length
-
-/-- `Sequence.convolve(h)` (mode 'full'): zero-pad x by `extent h - 1` and FIR-filter with the value
-    list of h -/
+/-- `Sequence.convolve(h)` (mode 'full'): zero-pad x by `len h - 1` and FIR-filter with h -/
 def convolvePy (x h : List K) : List K :=
   if x.isEmpty ∨ h.isEmpty then [] else
-  lfilterPy h [1] (x ++ List.replicate (extent h - 1) 0)
+  lfilterPy h [1] (x ++ List.replicate (h.length - 1) 0)
 
 end
 
@@ -257,15 +221,13 @@ def dftGeoSpecial (p : Nat) (l N : Nat) : Option K :=
   | 1 => some ((natK N * (natK N - 1) - natK l * (natK l - 1)) / (1 + 1))
   | _ => none
 
-/-- DFT (at `q = ω^k`, `q^N = 1`) of one term.  `numeric` = N was given as a number: then the
-    impulse index is wrapped to `d - N` when `d > N/2` ("shift frequency to -pi .. pi"), and a
+/-- DFT (at `q = ω^k`, `q^N = 1`) of one term.  `numeric` = N was given as a number: then a
     step starting at or beyond N gives 0.  `none` = not modelled (p ≥ 2, sinusoids) or a pole. -/
 def dftTerm (numeric : Bool) (t : CTerm K) (N : Nat) (q : K) : Option K :=
   match t.base with
   | .imp d =>
     if 0 ≤ d ∧ d < N then
-      let e : Int := if numeric ∧ N < 2 * d then d - N else d
-      some (t.coef * powK (intK e) t.p * zpowK t.a e * zpowK q e)
+      some (t.coef * powK (intK d) t.p * zpowK t.a d * zpowK q d)
     else some 0
   | .cos .. => none
   | .sin .. => none
